@@ -344,9 +344,12 @@ impl Prop for C05 {
                 }
                 // `=v` on a flag
                 if o.value.is_none() && idx.len() == 1 {
-                    let mut a = argv.clone();
-                    a[first].extend_from_slice(b"=v");
-                    probes.push(("value-on-flag", a));
+                    // a plain value, and values that look like something else
+                    for stray in [&b"=v"[..], &b"=--"[..], &b"="[..], &b"=-x"[..]] {
+                        let mut a = argv.clone();
+                        a[first].extend_from_slice(stray);
+                        probes.push(("value-on-flag", a));
+                    }
                 }
             }
         }
